@@ -231,7 +231,8 @@ def c01_vacuum_fire(ctx, carrier, step_ft, relative_deg, rlo, rhi, wind='none', 
 
 def _cfg_drag_loop(tier):
     K = 12 if tier == 'quick' else 24
-    plan = [('F', 20.0, dict(relative_deg=-80.0), 8000.0, 'none'), ('A', 100.0, dict(), 0.0, 'two'), ('D', 20.0, dict(relative_deg=60.0), 0.0, 'head')]
+    plan = [('F', 20.0, dict(relative_deg=-80.0), 8000.0, 'none'), ('A', 100.0, dict(), 0.0, 'two'), ('D', 20.0, dict(relative_deg=60.0), 0.0, 'head'),
+            ('G', 20.0, dict(relative_deg=2.0), 0.0, 'none')]
     return [{'carrier': c, 'step_ft': s, 'kw': kw, 'altitude_ft': alt, 'wind': w, 'K': K} for (c, s, kw, alt, w) in plan]
 
 
@@ -257,20 +258,52 @@ def c01_drag_in_loop(ctx, carrier, step_ft, kw, altitude_ft, wind, K):
         v = orig(self, mach)
         calls.append((mach, v))
         return v
-    tc.TrajectoryCalc.drag_by_mach = spy
-    try:
-        calc.fire(shot, U.Foot(R), U.Foot(step_ft))
-    finally:
-        tc.TrajectoryCalc.drag_by_mach = orig
+
+    def fire():
+        del calls[:]
+        tc.TrajectoryCalc.drag_by_mach = spy
+        try:
+            calc.fire(shot, U.Foot(R), U.Foot(step_ft))
+        finally:
+            tc.TrajectoryCalc.drag_by_mach = orig
+        return list(calls)
     pts = shot.ammo.dm.drag_table
-    curve = tc.calculate_curve(pts)
-    machs = tc._get_only_mach_data(pts)
+    X = [float(pt.Mach) for pt in pts]
+    Y = [float(pt.CD) for pt in pts]
+    from harness.c09 import _lagrange, _chord
+
+    def on_table(m, cd):
+        """independent of the code's curve: cd lies on the chord of the first interval, or on a parabola through three consecutive
+        tabulated points that include both neighbours of m (the last three beyond the table)"""
+        n = len(X)
+        i = next((j for j in range(n - 1) if m <= X[j + 1]), n - 2)
+        cands = []
+        if i == 0:
+            cands.append(_chord((X[0], Y[0]), (X[1], Y[1]), m))
+        for j in range(1, n - 1):
+            if j - 1 <= i and i + 1 <= j + 1:
+                cands.append(_lagrange([(X[j - 1], Y[j - 1]), (X[j], Y[j]), (X[j + 1], Y[j + 1])], m))
+        return any(abs(cd - c) <= 1e-9 for c in cands)
+
+    def faithful(calls, bc):
+        curve = tc.calculate_curve(pts)
+        machs = tc._get_only_mach_data(pts)
+        ok = True
+        for (m, v) in calls:
+            want = tc._calculate_by_curve_and_mach_list(machs, curve, m) * 2.08551e-04 / bc
+            ok = ok and (abs(v - want) <= 1e-12 * abs(want)) and on_table(m, v * bc / 2.08551e-04)
+        return ok
     bc = shot.ammo.dm.BC
-    ok = True
-    for (m, v) in calls:
-        want = tc._calculate_by_curve_and_mach_list(machs, curve, m) * 2.08551e-04 / bc
-        ok = ok and (abs(v - want) <= 1e-12 * abs(want))
-    ctx.check('drag_in_the_loop_is_the_table_function_of_the_mach_asked', ok, info={'calls': len(calls)})
+    first = fire()
+    ctx.check('drag_in_the_loop_is_the_table_function_of_the_mach_asked', faithful(first, bc), info={'calls': len(first)})
+    # the same calculator and the same DragModel object after the BC was changed in place (BC truing): the drag of the CURRENT BC
+    shot.ammo.dm.BC = bc * 1.25
+    try:
+        second = fire()
+        ctx.check('drag_in_the_loop_is_the_table_function_of_the_mach_asked', faithful(second, bc * 1.25), info={'calls': len(second), 'after': 'BC changed in place'})
+    finally:
+        shot.ammo.dm.BC = bc
+    calls[:] = first
     ms = [m for (m, _) in calls]
     pts_m = [pt.Mach for pt in pts]
     mids = [(a + b) / 2 for a, b in zip(pts_m, pts_m[1:])]
